@@ -531,8 +531,10 @@ def run_case(case):
                         res.viol("never_quiet_after_undecodable_bytes", step=si, case=case)
                         stop = True
                         break
-                    if len(then) >= 2 and got_keys[-(len(then) - 1):] != then[1:]:
-                        # the keypress right behind the garbage may be damaged by it; everything after that must arrive
+                    if len(then) >= 2 and not b"".join(got_keys).endswith(b"".join(then[1:])):
+                        # the keypress right behind the garbage may be damaged by it; every byte after that must arrive, in order
+                        # (as bytes, not as a list of keypresses: where a 1024-byte read happens to end inside a sequence whose
+                        # beginning is itself a key - ESC [ of ESC [ A - the cut is legitimate and not this property's business)
                         res.viol("valid_keypresses_after_undecodable_bytes_lost", expected_tail=[x.hex() for x in then[1:]],
                                  got=[x.hex() for x in got_keys[-6:]], step=si, case=case)
                         stop = True
